@@ -238,3 +238,40 @@ Proof.
     destruct stop; [inversion H; subst; discriminate|].
     destruct (execute sp st s2 w); [discriminate|]. inversion H; subst. discriminate.
 Qed.
+
+(* C18, the converse for the BatchRelease: a deleting object that keeps its finalizer is on its way to Completed and says
+   so -- every such reconcile asks for a requeue or changes the recorded status (which wakes the controller through its
+   own watch); and a deleting object recorded as Completed loses the finalizer in the next reconcile *)
+Lemma sync_deleting_phase sp st w s2 stop : sp_deleting sp = true -> bs_phase st <> PhCompleted ->
+  sync_status sp st w = (s2, stop) -> bs_phase s2 = PhFinalizing /\ stop = false.
+Proof.
+  intros Hd Hne. unfold sync_status. destruct (sync_workload sp _ w) as [ev has_info].
+  destruct (brphase_eqb (bs_phase st) PhCompleted) eqn:E; [apply brphase_eqb_eq in E; congruence|].
+  rewrite Hd. cbn [orb]. intros H. injection H as <- <-. split; reflexivity.
+Qed.
+
+Theorem br_teardown_never_stalls sp st w r : sp_deleting sp = true -> sp_finalizer sp = true ->
+  reconcile sp st w = Some r -> r_finalizer r = true ->
+  r_requeue r = RqAfter \/ status_eqb st (r_status r) = false.
+Proof.
+  intros Hd Hfin H Hf. unfold reconcile in H. rewrite Hd, Hfin in H. cbn [andb] in H. rewrite andb_true_r in H.
+  destruct (brphase_eqb (bs_phase st) PhCompleted) eqn:E.
+  { injection H as <-. cbn in Hf. discriminate. }
+  assert (Hne : bs_phase st <> PhCompleted) by (intros Hx; rewrite Hx in E; cbn in E; discriminate).
+  destruct (sync_status sp st w) as [s2 stop] eqn:Hs.
+  destruct (sync_deleting_phase sp st w s2 stop Hd Hne Hs) as [Hp ->].
+  destruct (negb (status_eqb st s2)) eqn:En.
+  { injection H as <-. left. reflexivity. }
+  apply negb_false_iff in En. apply status_eqb_eq in En. subst s2.
+  unfold execute in H. rewrite Hp in H.
+  right. destruct (status_eqb st (r_status r)) eqn:Eq; [|reflexivity]. apply status_eqb_eq in Eq.
+  exfalso. assert (Hph : bs_phase (r_status r) = PhCompleted).
+  { destruct (negb (w_exists w)); injection H as <-; reflexivity. }
+  rewrite <- Eq in Hph. congruence.
+Qed.
+
+Theorem br_deletion_not_blocked sp st w r : sp_deleting sp = true -> sp_finalizer sp = true -> bs_phase st = PhCompleted ->
+  reconcile sp st w = Some r -> r_finalizer r = false.
+Proof.
+  intros Hd Hfin Hp H. unfold reconcile in H. rewrite Hd, Hfin, Hp in H. cbn in H. injection H as <-. reflexivity.
+Qed.
